@@ -22,6 +22,8 @@ def shards(tier):
     for n in range(0, 9):
         out.append({"fn": "header", "consts": {"n": n}, "timeout": 600, "twin": "first" if n == 8 else False, "cover": "first" if n == 8 else False})
     out.append({"fn": "msg_version", "consts": {}, "timeout": 300})
+    out.append({"fn": "file_version", "consts": {}, "timeout": 300})
+    out.append({"fn": "ref_fault", "consts": {}, "timeout": 600})
     total = 8 + len(L._valid_tail())       # length of the reference file (staged schema)
     step = 25
     for lo in range(0, total, step):
